@@ -58,6 +58,9 @@ type mPod struct {
 	ContStart   *int64 `json:"contStart"`
 	ContFinish  *int64 `json:"contFinish"`
 	Scheduled   bool   `json:"scheduled"`
+	// PrevOOM: the container was OOM-killed once, restarted (restartPolicy OnFailure) and then
+	// terminated as Phase says: lastState is the OOM kill, state the final termination
+	PrevOOM bool `json:"prevOOM,omitempty"`
 }
 
 type mJob struct {
@@ -229,6 +232,15 @@ func (m *mJob) podObj(p mPod) *corev1.Pod {
 			term.FinishedAt = *mtp(p.ContFinish)
 		}
 		cs.State.Terminated = term
+		if p.PrevOOM && !p.OOM {
+			prev := &corev1.ContainerStateTerminated{Reason: "OOMKilled", ExitCode: 137}
+			if p.ContStart != nil {
+				prev.StartedAt = *mtp(ip(*p.ContStart - 2))
+				prev.FinishedAt = *mtp(ip(*p.ContStart - 1))
+			}
+			cs.LastTerminationState.Terminated = prev
+			cs.RestartCount = 1
+		}
 		pod.Status.ContainerStatuses = []corev1.ContainerStatus{cs}
 	case p.ContStart != nil:
 		cs.State.Running = &corev1.ContainerStateRunning{StartedAt: *mtp(p.ContStart)}
